@@ -1,6 +1,6 @@
-\* C24 leg A thorough (2): 5 requests (each within or over a request limit), max 1..3, all interleavings, safety only ; emits no cases
+\* C24 leg A thorough (2): 4 requests, each within or over a request limit, max 1..3, all interleavings, safety only ; emits no cases
 SPECIFICATION Spec
-CONSTANTS NReq = 5
+CONSTANTS NReq = 4
           MaxSet = {1, 2, 3}
           DoneOnFailedStart = FALSE
           WithLimits = TRUE
